@@ -185,7 +185,7 @@ def run(ctx):
     r = ctx.tlc("PPGModel", f"SPECIFICATION Spec\nINVARIANT EveryCmdInRange\nINVARIANT ChunkingCorrect\nINVARIANT RoundTrip\nINVARIANT ConfigIsComposition\nINVARIANT Emit\n"
                 f"CHECK_DEADLOCK FALSE\nCONSTANTS Chunk = {CH}\n MaxMem = {MM}\n MaxOps = 1\n", workers=1, note="setters x request classes x selections; single data ops")
     ctx.tlc("PPGModel", f"SPECIFICATION Spec\nINVARIANT EveryCmdInRange\nINVARIANT ChunkingCorrect\nINVARIANT RoundTrip\n"
-            f"CHECK_DEADLOCK FALSE\nCONSTANTS Chunk = {CH}\n MaxMem = {MM}\n MaxOps = {3 if T else 2}\n", note="data histories", timeout=3000)
+            f"CHECK_DEADLOCK FALSE\nCONSTANTS Chunk = {CH}\n MaxMem = {MM}\n MaxOps = {3 if T else 2}\n", note="data histories", timeout=3000, actions=["Setter", "SetFlag", "Config", "SetData", "GetData"])
     ctx.tlc("Sync", f"SPECIFICATION Spec\nINVARIANT SyncFindsDelay\nCHECK_DEADLOCK FALSE\nCONSTANTS MaxSlots = {6 if T else 5}\n Sps = 2\n", note="SYNC model")
     ctx.exhaustive = True
     evs = parse_ev(r.out)
